@@ -17,6 +17,7 @@ import (
 	"encoding/json"
 	"flag"
 	"fmt"
+	"math"
 	"net/http"
 	"net/http/httptest"
 	"net/url"
@@ -34,6 +35,10 @@ import (
 
 	apifu "github.com/ccbrown/api-fu"
 	"github.com/ccbrown/api-fu/graphql"
+	"github.com/ccbrown/api-fu/graphql/executor"
+	"github.com/ccbrown/api-fu/graphql/parser"
+	"github.com/ccbrown/api-fu/graphql/schema"
+	"github.com/ccbrown/api-fu/graphql/validator"
 	jsoniter "github.com/json-iterator/go"
 
 	"verifharness/hx"
@@ -137,6 +142,14 @@ func genCase(seed int64, idx int) Case {
 		c.Kind = "deep"
 		d := hx.Pick(r, []int{3, 60, 300, 3000, 40000})
 		rep := func(s string) string { return strings.Repeat(s, d) }
+		// string scanning is quadratic in the string's length (value += rune): polynomial, so not
+		// C03's business (C12 bounds it); keep string-heavy families small enough not to look like a stall
+		srep := func(s string) string {
+			if d > 3000 {
+				return strings.Repeat(s, 3000)
+			}
+			return strings.Repeat(s, d)
+		}
 		q = hx.Pick(r, []string{
 			"{" + rep("obj{") + "int" + rep("}") + "}",
 			"{args(ll:" + rep("[") + "1" + rep("]") + ")}",
@@ -146,7 +159,7 @@ func genCase(seed int64, idx int) Case {
 			"{" + rep("...{") + "int" + rep("}") + "}",
 			"{" + rep("... on Query{") + "int" + rep("}") + "}",
 			rep("{"), rep("("), rep("["), "{int" + rep("("), "{args(l:" + rep("["), "{args(in:" + rep("{a:"),
-			"{int " + rep("@tag") + "}", "{args(s:\"" + rep("a"), "{args(s:\"\"\"" + rep("\n \\\"\"\"") + "\"\"\")}",
+			"{int " + rep("@tag") + "}", "{args(s:\"" + srep("a"), "{args(s:\"\"\"" + srep("\n \\\"\"\"") + "\"\"\")}",
 			"{" + rep(",") + "int}", "{int" + rep("#\n") + "}", rep("fragment F on Query{int}"), rep("query{int}"), rep("query Q{int}"),
 			func() string { // fragment chain, each reached once
 				var sb strings.Builder
@@ -295,9 +308,12 @@ func checkResponse(resp *graphql.Response) string {
 
 // runCase returns "" when the property held, else a description. Panics are recovered here; fatal
 // errors and stalls are the parent's business.
+var lastAdm string
+
 func runCase(c Case) (fail string) {
 	w := &world{r: hx.NewRand(c.WorldSeed), mode: c.Mode, async: c.Async}
 	theWorld = w
+	lastAdm = ""
 	defer func() {
 		if p := recover(); p != nil {
 			st := string(debug.Stack())
@@ -333,7 +349,11 @@ func runCase(c Case) (fail string) {
 		return ""
 	case "execute":
 		resp := graphql.Execute(&graphql.Request{Context: context.Background(), Query: q, Schema: theSchema, OperationName: c.Op, VariableValues: vars, IdleHandler: idle})
-		return checkResponse(resp)
+		if f := checkResponse(resp); f != "" {
+			return f
+		}
+		lastAdm = envelopeRequest(q, c.Op, vars, resp)
+		return ""
 	case "subscribe":
 		req := &graphql.Request{Context: context.Background(), Query: q, Schema: theSchema, OperationName: c.Op, VariableValues: vars, IdleHandler: idle}
 		v, errs := graphql.Subscribe(req)
@@ -395,6 +415,30 @@ func runCase(c Case) (fail string) {
 	}
 }
 
+// envelopeRequest observes the pre-execution stage outcomes through the exported stage functions and
+// the shape of the response, as a request line for the driver's envelope acceptor.
+func envelopeRequest(q, op string, vars map[string]interface{}, resp *graphql.Response) string {
+	parseErrs, valErrs, setupOk := 0, 0, true
+	doc, perrs := parser.ParseDocument([]byte(q))
+	parseErrs = len(perrs)
+	if parseErrs == 0 {
+		valErrs = len(validator.ValidateDocument(doc, theSchema, nil))
+		if valErrs == 0 {
+			if o, err := executor.GetOperation(doc, op); err != nil {
+				setupOk = false
+			} else if _, err := validator.CoerceVariableValues(theSchema, nil, o, vars); err != nil {
+				setupOk = false
+			}
+		}
+	}
+	dataNull := false
+	if resp.Data != nil {
+		b, _ := json.Marshal(*resp.Data)
+		dataNull = string(b) == "null"
+	}
+	return fmt.Sprintf("(admissible %d %d %v true %v %v %d)", parseErrs, valErrs, setupOk, resp.Data != nil, dataNull, len(resp.Errors))
+}
+
 type harnessBug string
 
 var digitsRe = regexp.MustCompile(`0x[0-9a-f]+|[0-9]+`)
@@ -442,6 +486,7 @@ type line struct {
 	Entry string `json:"entry"`
 	Class string `json:"class"` // outcome class for the distribution
 	MS    int64  `json:"ms"`
+	Adm   string `json:"adm,omitempty"` // envelope-acceptor request for the Lean driver
 }
 
 func worker(seed int64, from, to int, perCase time.Duration) {
@@ -491,7 +536,7 @@ func worker(seed int64, from, to int, perCase time.Duration) {
 		if fail != "" {
 			cls = "fail"
 		}
-		b, _ := json.Marshal(line{Idx: i, Fail: fail, Kind: c.Kind, Entry: c.Entry, Class: cls, MS: time.Since(t0).Milliseconds()})
+		b, _ := json.Marshal(line{Idx: i, Fail: fail, Kind: c.Kind, Entry: c.Entry, Class: cls, MS: time.Since(t0).Milliseconds(), Adm: lastAdm})
 		out.Write(b)
 		out.WriteByte('\n')
 		if fail != "" || i%64 == 0 {
@@ -512,7 +557,7 @@ func main() {
 	dumpSites := flag.Bool("dump-panic-sites", false, "print the panic-site inventory of $VERIF_REPO as JSON and exit")
 	run := hx.Init("C03")
 	run.MaxPerKey = 40 // failures are de-duplicated by signature below
-	perCase := 25 * time.Second
+	perCase := 60 * time.Second
 	if *isWorker {
 		worker(run.Seed, *from, *to, perCase)
 		return
@@ -567,9 +612,15 @@ func main() {
 	var mu sync.Mutex
 	var wg sync.WaitGroup
 	sigSeen := map[string]int{}
+	var admReqs []string
+	var admCases []Case
 	record := func(l line, c Case) {
 		mu.Lock()
 		defer mu.Unlock()
+		if l.Adm != "" {
+			admReqs = append(admReqs, l.Adm)
+			admCases = append(admCases, c)
+		}
 		nontrivial := !strings.Contains(l.Fail, "Syntax error")
 		run.Case(c.Query+"|"+c.Vars+"|"+c.Op+"|"+c.Entry+"|"+fmt.Sprint(c.WorldSeed), nontrivial && c.Kind != "random")
 		run.Count("kind:" + c.Kind)
@@ -669,6 +720,34 @@ func main() {
 	}
 	close(jobs)
 	wg.Wait()
+	// correspondence with the Lean model (envelope acceptor, filters, Float coercion, recover)
+	if run.ModelPath != "" {
+		m, err := hx.StartModel(run.ModelPath)
+		if err != nil {
+			fmt.Fprintln(os.Stderr, "cannot start model:", err)
+			os.Exit(2)
+		}
+		replies, err := m.AskAll(admReqs)
+		bad := ""
+		for i, rep := range replies {
+			run.Count("envelope:" + strings.Join(strings.Fields(admReqs[i])[1:5], ","))
+			if rep != "true" && bad == "" {
+				bad = fmt.Sprintf("response shape not admitted by the envelope model: %s → %s (query %s)", admReqs[i], rep, truncate(admCases[i].query(), 200))
+				run.Violate("correspondence", bad, "", true, admCases[i])
+			}
+		}
+		if err != nil {
+			bad = err.Error()
+		}
+		run.Oblige("envelope: response shape admitted by the Lean envelope model for the observed stage outcomes", "correspondence", len(admReqs), bad == "", bad)
+		small := smallCorrespondences(m)
+		run.Oblige("@skip/@include filters, Float result coercion, ParseDocument recover = Lean models (all classes)", "correspondence", 24, small == "", small)
+		if small != "" {
+			run.Violate("correspondence", small, "", true, small)
+		}
+		defer m.Close()
+		defer func() { run.Finish(m) }()
+	}
 	nSites, missing, err := checkInventory(repo, run.VerifDir+"/checks/C03.panicsites.json")
 	if err != nil {
 		run.Oblige("panic-site inventory of the anchored files matches the discharged table", "srcfact", nSites, false, err.Error())
@@ -679,7 +758,9 @@ func main() {
 		}
 	}
 	run.Oblige("oracle: returns normally (no panic / fatal / stall), response serialises, null-or-absent data ⇒ errors", "oracle", total, run.Violations() == 0, "see violations")
-	run.Finish(nil)
+	if run.ModelPath == "" {
+		run.Finish(nil)
+	}
 }
 
 func truncate(s string, n int) string {
@@ -726,12 +807,89 @@ func init() {
 			var fail string
 			select {
 			case fail = <-done:
-			case <-time.After(25 * time.Second):
-				fail = "hang: no result within 25s"
+			case <-time.After(60 * time.Second):
+				fail = "hang: no result within 60s"
 			}
 			b, _ := json.Marshal(line{Idx: c.Idx, Fail: fail})
 			fmt.Println(string(b))
 			os.Exit(0)
 		}
 	}
+}
+
+// smallCorrespondences compares the three small guard models with the real functions on every class.
+func smallCorrespondences(m *hx.Model) string {
+	// @skip / @include
+	args := map[string]map[string]interface{}{
+		"absent": {}, "nil": {"if": nil}, "true": {"if": true}, "false": {"if": false}, "other": {"if": "true"},
+	}
+	for _, which := range []string{"skip", "include"} {
+		f := schema.SkipDirective.FieldCollectionFilter
+		if which == "include" {
+			f = schema.IncludeDirective.FieldCollectionFilter
+		}
+		for _, k := range []string{"absent", "nil", "true", "false", "other"} {
+			got := func() (out string) {
+				defer func() {
+					if recover() != nil {
+						out = "panicked"
+					}
+				}()
+				return fmt.Sprintf("(keep %v)", f(args[k]))
+			}()
+			want, err := m.Ask(fmt.Sprintf("(filter %s %s)", which, k))
+			if err != nil || got != want {
+				return fmt.Sprintf("@%s filter on %s: implementation %s, model %s %v", which, k, got, want, err)
+			}
+		}
+	}
+	// Float result coercion
+	samples := map[string][]interface{}{
+		"boolean": {true, false}, "integer": {int8(-1), uint8(2), int16(3), uint16(4), int32(5), uint32(6), int64(7), uint64(8), 9, uint(10)},
+		"finite": {1.5, float32(2.5), math.MaxFloat64, -math.SmallestNonzeroFloat64, float32(math.MaxFloat32)},
+		"nan":    {math.NaN(), float32(math.NaN())}, "posinf": {math.Inf(1), float32(math.Inf(1))}, "neginf": {math.Inf(-1), float32(math.Inf(-1))},
+		"other": {"1.5", nil, []int{1}, struct{}{}, complex(1, 1), json.Number("1")},
+	}
+	for k, vs := range samples {
+		want, err := m.Ask("(float " + k + ")")
+		for _, v := range vs {
+			out := schema.FloatType.ResultCoercion(v)
+			got := "rejected"
+			if f, ok := out.(float64); ok {
+				got = "number"
+				if math.IsNaN(f) || math.IsInf(f, 0) {
+					got = "nonFinite"
+				}
+			} else if out != nil {
+				got = fmt.Sprintf("unexpected %T", out)
+			}
+			if err != nil || got != want {
+				return fmt.Sprintf("Float result coercion of %#v (%s): implementation %s, model %s %v", v, k, got, want, err)
+			}
+		}
+	}
+	// recover: a syntax error is returned, never re-raised
+	for src, want := range map[string]string{"{a}": "returned", "{": "returnedWithError"} {
+		got := func() (out string) {
+			defer func() {
+				if recover() != nil {
+					out = "repanicked"
+				}
+			}()
+			_, errs := parser.ParseDocument([]byte(src))
+			if len(errs) > 0 {
+				return "returnedWithError"
+			}
+			return "returned"
+		}()
+		k := "none"
+		if want == "returnedWithError" {
+			k = "syntaxError"
+		}
+		rep, err := m.Ask("(recover " + k + ")")
+		if err != nil || rep != got || got != want {
+			return fmt.Sprintf("ParseDocument(%q): implementation %s, model %s %v", src, got, rep, err)
+		}
+	}
+	return ""
 }
